@@ -848,6 +848,9 @@ def main(rep, tier, seed):
             if k == 4 and tier == 'quick' and (ci + seed) % 5:
                 continue
             cases.append({'mut': ['eqpt_ila'] if k == 2 else [], 'services': list(combo)})
+            if k <= 2:
+                # the same rows on a workbook whose first link has its own west values (other cable id, length, connectors)
+                cases.append({'mut': ['west_values'], 'services': list(combo)})
     cases.append({'mut': [], 'services': srows})
     for combo in (['strict_ila_then_roadm'], ['blank_loose'], ['path_loose_ila', 'plain'], ['strict_ila_then_roadm', 'path_strict']):
         cases.append({'mut': [], 'alt': True, 'services': combo})
